@@ -2183,6 +2183,27 @@ class C01(Oracle):
             return out
         tnames = [t['name'] for t in data['transition_functions']]
         snap = enc_state(s)
+        # things that are not actions at all (an index, a flag, a name) are outside every action space
+        import numpy as np
+
+        for junk in (0, 4, 7, True, np.int64(5), 4.0, None, 'TURN_LEFT', r0.randrange(8)):
+            try:
+                if env.action_space.contains(junk):
+                    out.append(V('ActionSpace.contains/accepts-a-non-action', f'{junk!r}'))
+            except Exception:
+                pass
+            try:
+                env.functional_step(s, junk)
+                out.append(V('functional_step/non-action-accepted', f'{junk!r}'))
+            except ValueError:
+                pass
+            except Exception as e:
+                out.append(V('functional_step/non-action-wrong-error', f'{junk!r}: {type(e).__name__}'))
+            if enc_state(s) != snap:
+                out.append(V('functional_step/rejected-action-changed-the-state', f'{junk!r}'))
+                break
+        if out:
+            return out
         needs_unique = {r['name'] for r in data['reward_functions']} & {'getting_closer', 'getting_closer_shortest_path', 'proportional_to_distance'}
         for a in Action:
             inside = env.action_space.contains(a)
